@@ -120,7 +120,7 @@ def h256 : Relic.Spec.Mac.Hash := { h := Relic.Spec.Sha256.sha256, outLen := 32,
 partial def handle (e : Env) (w : Nat) (op : String) (args : List String) (got : String) : Option Verdict :=
   let c := e.c
   let cls := fun (s : String) (tags : List String) => some ({ model := s, spec := [s], tags := tags } : Verdict)
-  let ctx : Relic.Model.EdConv.Ctx := { c := c, nb := e.nb, R := e.R, srt := sqrtMod c.p }
+  let ctx : Relic.Model.EdConv.Ctx := { c := c, nb := e.nb, R := e.R, srt := sqrtMod c.p, inv := finv c }
   match op, args with
   | "ed2", [o, al, p, q] => do
     let p ← parsePoint p
